@@ -279,7 +279,21 @@ pub fn gen_case(g: &mut G) -> RawCase {
                 };
                 lines.push(RawLine::I(code(if g.chance(1, 2) { "STX" } else { "STY" }), o, p));
             }
-            13 => lines.push(RawLine::I(code(*g.pick(&["TAX", "TAY", "TXA", "TYA"])), Op::None, false)),
+            13 => {
+                // transfers, also as what `load(X)` / `store(Y)` emit (protected), and the inverse transfer
+                // right behind (`X = e; load(X);`)
+                let t = *g.pick(&["TAX", "TAY", "TXA", "TYA"]);
+                lines.push(RawLine::I(code(t), Op::None, p));
+                if g.chance(1, 3) {
+                    let inv = match t {
+                        "TAX" => "TXA",
+                        "TXA" => "TAX",
+                        "TAY" => "TYA",
+                        _ => "TAY",
+                    };
+                    lines.push(RawLine::I(code(inv), Op::None, g.chance(1, 2)));
+                }
+            }
             14 => {
                 lines.push(RawLine::I(code("CLC"), Op::None, false));
                 lines.push(RawLine::I(code("ADC"), if g.chance(1, 2) { imm(g) } else { mem_operand(g) }, false));
